@@ -100,21 +100,43 @@ def run_impl(prop, case):
         s = frozenset(tab)
         return lambda node: num.get(id(node), FOREIGN) in s
 
+    def flat_eager(gen):
+        # every node is read as soon as it is yielded
+        return [nm(x) for x in gen]
+
+    def flat_late(gen):
+        # the caller collects the whole iterator first and looks at the nodes afterwards
+        items = list(gen)
+        return [nm(x) for x in items]
+
+    def groups_eager(gen):
+        return [[nm(x) for x in g] for g in gen]
+
+    def groups_late(gen):
+        groups = list(gen)
+        return [[nm(x) for x in g] for g in groups]
+
     out = []
     for run in case["runs"]:
         start = reg[run["start"]]
         kw = {"filter_condition": pred(run["f"]), "stop_condition": pred(run["s"]), "max_depth": run["m"]}
-        o = {
-            "pre": [nm(x) for x in it.preorder_iter(start, **kw)],
-            "post": [nm(x) for x in it.postorder_iter(start, **kw)],
-            "lo": [nm(x) for x in it.levelorder_iter(start, **kw)],
-            "zz": [nm(x) for x in it.zigzag_iter(start, **kw)],
-            "log": [[nm(x) for x in g] for g in it.levelordergroup_iter(start, **kw)],
-            "zzg": [[nm(x) for x in g] for g in it.zigzaggroup_iter(start, **kw)],
-            "in": [],
-        }
-        if case["kind"] == "bin":
-            o["in"] = [nm(x) for x in it.inorder_iter(start, filter_condition=pred(run["f"]), max_depth=run["m"])]
+        ikw = {"filter_condition": kw["filter_condition"], "max_depth": run["m"]}
+        o = None
+        for flat, groups in ((flat_eager, groups_eager), (flat_late, groups_late)):
+            cur = {
+                "pre": flat(it.preorder_iter(start, **kw)),
+                "post": flat(it.postorder_iter(start, **kw)),
+                "lo": flat(it.levelorder_iter(start, **kw)),
+                "zz": flat(it.zigzag_iter(start, **kw)),
+                "log": groups(it.levelordergroup_iter(start, **kw)),
+                "zzg": groups(it.zigzaggroup_iter(start, **kw)),
+                "in": flat(it.inorder_iter(start, **ikw)) if case["kind"] == "bin" else [],
+            }
+            if o is None:
+                o = cur
+            else:
+                # observation after full materialisation; stored only when it differs from the eager one
+                o["late"] = None if cur == {k: o[k] for k in cur} else cur
         out.append(o)
     return out
 
@@ -145,11 +167,14 @@ def emit(prop, case, obs):
     pos = {i: p for i, _, p, _ in nodes_of(case)}
     runs = []
     assert len(obs) == len(case["runs"])
-    for run, o in zip(case["runs"], obs):
-        io = "(IO %s %s %s %s %s %s)" % (_cl(o["pre"]), _cl(o["post"]), _cl(o["lo"]), _cl(o["zz"]),
-                                         _cll(o["log"]), _cll(o["zzg"]))
-        runs.append("IR %s %s %s %d %s %s" % (_cl(pos[run["start"]]), copt(run["f"], _cl), copt(run["s"], _cl),
-                                               run["m"], io, _cl(o["in"])))
+    for run, o0 in zip(case["runs"], obs):
+        # both observations (eager; after list(iterator)) must equal the model and satisfy the property:
+        # when they differ the run is emitted twice, once with each observation
+        for o in [o0] + ([o0["late"]] if o0.get("late") is not None else []):
+            io = "(IO %s %s %s %s %s %s)" % (_cl(o["pre"]), _cl(o["post"]), _cl(o["lo"]), _cl(o["zz"]),
+                                             _cll(o["log"]), _cll(o["zzg"]))
+            runs.append("IR %s %s %s %d %s %s" % (_cl(pos[run["start"]]), copt(run["f"], _cl), copt(run["s"], _cl),
+                                                   run["m"], io, _cl(o["in"])))
     if case["kind"] == "rose":
         return "CRose (%s) %s" % (_ctree(case["tree"]), clist(runs))
     return "CBin (%s) %s" % (_cbtree(case["tree"]), clist(runs))
@@ -510,14 +535,20 @@ def sample(prop, case, obs):
 def rule(prop):
     return ("ordered trees (BaseNode/Node; strata wide fan-out<=6 / deep depth<=8 / mixed / path / star, <=12 nodes) and binary "
             "trees with empty slots (BinaryNode, <=10 nodes) x start node (root or inner) x filter/stop tables (absent, random, "
-            "whole level stopped, empty) x max_depth (0 or around the start depth .. tree depth+1); all 7 iterators per run; "
+            "whole level stopped, empty) x max_depth (0 or around the start depth .. tree depth+1); all 7 iterators per run, each observed twice: "
+            "nodes/groups read as they are yielded, and read only after the whole iterator has been collected with list(); "
             "plus every ordered tree with <=4 (thorough: <=6) nodes and every binary tree with <=3 (thorough: <=5) nodes under a "
             "systematic run set; non-trivial = tree has >=3 nodes and some run yields >=2 nodes; distinct by canonical JSON hash")
 
 
 def explain(prop, case, obs, flags):
     from ._base import explain as base
-    return base(prop, case, obs, flags)
+    msg = base(prop, case, obs, flags)
+    if isinstance(obs, list) and any(isinstance(o, dict) and o.get("late") is not None for o in obs):
+        keys = sorted({k for o in obs if o.get("late") for k in o["late"] if o["late"][k] != o[k]})
+        msg += ("; what a caller sees after collecting the whole iterator (list(it), then reading the items) differs from "
+                "what it sees reading each item as it is yielded, for: " + ", ".join(keys))
+    return msg
 
 
 def trusted_base(prop):
